@@ -83,11 +83,14 @@ def bitsOf (u : Nat) : (n : Nat) → List Bool
   | n + 1 => (u / 2 ^ n % 2 == 1) :: bitsOf u n
 
 /-- value of a bit string, most significant first -/
-def natOfBits (bs : List Bool) : Nat := bs.foldl (fun acc b => 2 * acc + (if b then 1 else 0)) 0
+def natOfBits : List Bool → Nat
+  | [] => 0
+  | b :: bs => (if b then 2 ^ bs.length else 0) + natOfBits bs
 
 /-- read `n` bits; `none` at end of input (`io.EOF`) -/
 def readBits (n : Nat) (bs : List Bool) : Option (Nat × List Bool) :=
-  if bs.length < n then none else some (natOfBits (bs.take n), bs.drop n)
+  let hd := bs.take n
+  if hd.length < n then none else some (natOfBits hd, bs.drop n)
 
 def byteOfBits (bs : List Bool) : Nat := natOfBits bs
 
